@@ -69,6 +69,8 @@ func (s *DIServer[T]) Respond(ctx context.Context, msgType uint8, msg io.Reader)
 	case protocol.DISetHmacMsgType:
 		respType = protocol.DIDoneMsgType
 		resp, err = s.diDone(ctx, msg)
+	default:
+		err = errUnsupportedMsgType(ctx, msgType)
 	}
 	if err == nil {
 		return respType, resp
@@ -125,6 +127,8 @@ func (s *TO0Server) Respond(ctx context.Context, msgType uint8, msg io.Reader) (
 	case protocol.TO0OwnerSignMsgType:
 		respType = protocol.TO0AcceptOwnerMsgType
 		resp, err = s.acceptOwner(ctx, msg)
+	default:
+		err = errUnsupportedMsgType(ctx, msgType)
 	}
 	if err == nil {
 		return respType, resp
@@ -170,6 +174,8 @@ func (s *TO1Server) Respond(ctx context.Context, msgType uint8, msg io.Reader) (
 	case protocol.TO1ProveToRVMsgType:
 		respType = protocol.TO1RVRedirectMsgType
 		resp, err = s.rvRedirect(ctx, msg)
+	default:
+		err = errUnsupportedMsgType(ctx, msgType)
 	}
 	if err == nil {
 		return respType, resp
@@ -312,6 +318,8 @@ func (s *TO2Server) Respond(ctx context.Context, msgType uint8, msg io.Reader) (
 		s.Modules.CleanupModules(ctx)
 		respType = protocol.TO2Done2MsgType
 		resp, err = s.to2Done2(ctx, msg)
+	default:
+		err = errUnsupportedMsgType(ctx, msgType)
 	}
 
 	// Return response on success
